@@ -153,10 +153,42 @@ def check_unlock(ctx, P):
     o.check(bad is None, "one call", bad, site=u.loc, construct="unlock wrapper")
 
 
+def announce_windows(P):
+    """For every caller of the mpsc wait functions: can the fiber be switched away between an atomic read-modify-write that announces it (the last
+    RMW before the wait call) and its enqueue?  Returns [(function, call, witness-path)] for the windows that contain a call that may switch."""
+    out = []
+    names = (WAITQ, "fiber_manager_wait_in_mpsc_queue_and_unlock")
+    for fn in P.unique_functions():
+        if fn.name in names:
+            # inside the wait functions themselves: from entry to the push
+            sw = stale.switch_calls(P, fn)
+            for pcall in fn.calls("mpsc_fifo_push"):
+                for c in sw:
+                    if c is not pcall and fn.find_path("entry", lambda n, c=c: n is c) is not None and fn.find_path(c, lambda n, pcall=pcall: n is pcall) is not None:
+                        out.append((fn, c, None))
+            continue
+        waits = fn.calls(names)
+        if not waits:
+            continue
+        rmw = [s_.node for s_ in fn.stores() if s_.kind in ("atomic", "sync") and s_.aop != "store"]
+        sw = [c for c in stale.switch_calls(P, fn) if c.callee not in names]
+        for wcall in waits:
+            for a in rmw:
+                if fn.find_path(a, lambda n, wcall=wcall: n is wcall) is None:
+                    continue
+                for c in sw:
+                    if c is a:
+                        continue
+                    if fn.find_path(a, lambda n, c=c: n is c, barrier=lambda n, wcall=wcall: n is wcall) is not None and \
+                            fn.find_path(c, lambda n, wcall=wcall: n is wcall) is not None:
+                        out.append((fn, c, None))
+    return out
+
+
 def check_handoff(ctx, P):
     f = P.fn(WAKEQ)
-    o = ctx.ob("handoff", f, "the waker returns only after waking `count` fibers; when the queue is momentarily empty and count > 0 it yields "
-               "(it does not spin) and then retries; a popped node is stored back into its fiber's mpsc_fifo_node before the fiber is scheduled",
+    o = ctx.ob("handoff", f, "the waker returns only after waking `count` fibers; when the queue is momentarily empty and count > 0 it retries, and it yields between "
+               "the attempts unless no announced waiter can be switched away before it is enqueued; a popped node is stored back into its fiber's mpsc_fifo_node before the fiber is scheduled",
                "the announced waiter may be between its fetch-sub and its enqueue on the same kernel thread: a pure spin never lets it run "
                "(live-lock with one kernel thread); returning early strands it; a fiber scheduled without its node cannot block again")
     pops = f.calls("mpsc_fifo_trypop")
@@ -185,7 +217,13 @@ def check_handoff(ctx, P):
         if reach(f, ["exit"], atom, start=pops[0], barrier=nodeset(pops)):
             bad = bad or "with count=%d and nothing woken yet, a failed pop can lead to return" % count
         if reach(f, pops, atom, start=pops[0], barrier=nodeset(ys)):
-            bad = bad or "with count=%d a failed pop retries without yielding (pure spin)" % count
+            # a pure spin is safe exactly when an announced waiter cannot be switched away before it has enqueued itself (then it is running
+            # on another kernel thread and the spin ends); it live-locks when some waiter's announce -> enqueue window contains a switch
+            wins = announce_windows(P)
+            if wins:
+                wf, wc_, _ = wins[0]
+                bad = bad or ("with count=%d a failed pop retries without yielding (pure spin) while %s can be switched away between announcing itself and "
+                              "enqueueing (`%s`): on the waker's own kernel thread the announced waiter then never runs" % (count, wf.name, wc_.text[:40]))
     atom = atom_from([(ispop, 0), (isout, 0), (is_var_load(wc[0]), 0), (is_param_load(f, "count"), 0)])
     if reach(f, pops, atom, start=pops[0]):
         bad = bad or "with count=0 an empty queue is retried instead of returning 0"
